@@ -85,7 +85,10 @@ def generate(tier, seed):
         n = rng.randint(0, 12)
         flags = [rng.choice(FLAGS) for _ in range(n)]
         num = (lambda: float(_num(rng))) if k % 5 else (lambda: rng.choice([tie(), tie(), 0.0, 9.9995, 9.99949999, 1e-300, 1.7976931348623157e308, 5e-324]))
-        cases.append(dict(kind='roundtrip', name=_name(rng), x=rng.uniform(0, 360), y=rng.uniform(-90, 90), flags=flags,
+        # coordinates: sky positions in either longitude convention, and pixel-like / wide values that fill the printed field
+        x = rng.choice([rng.uniform(0, 360), rng.uniform(-180, 0), rng.uniform(1000, 99999), -rng.uniform(100, 9999)])
+        y = rng.choice([rng.uniform(-90, 90), rng.uniform(-90, 90), rng.uniform(1000, 99999), -rng.uniform(100, 9999)])
+        cases.append(dict(kind='roundtrip', name=_name(rng), x=x, y=y, flags=flags,
                           flux=[num() for _ in flags], error=[num() for _ in flags]))
     return cases
 
